@@ -216,6 +216,11 @@ def run(chk, tier):
                 chk.ob('R20.2', 'helper %s::%s forwards to Unimock\'s own %s with the same arguments' % (tname, it['name'], it['name']), ok, config=cfg, fn=fn, site='forward', what='helper %s::%s forwards %s' % (tname, it['name'], order),
                        found={'calls': [e.data[1] for e in p.calls()], 'order': order})
     supertrait_forwarders(chk, F, 'R20.2.super', cfg)
+    # R20.7 'required methods replay a script': a script written as one clause (`returns(x).n_times(n).then().returns(y)`) hands out x for the
+    # first n calls and y afterwards - every quantifier of the builder records its response before advancing the running index by its count
+    from props import builder as B_
+    B_.api_table(chk, F, 'R20.7', cfg)
+    B_.quantify_arith(chk, F, 'R20.7.arith', cfg)
     # R20.6 'act like hand-written impls' includes being dropped like one: clones of the mock that answers parked in the instance's own
     # lent values (e.g. `Error::source` handing out `u.make_ref(u.clone())`) and the delegation helper are released before the
     # live-handle count is taken, so a mock used that way does not refuse to verify (shared with C09/C13/C18)
